@@ -243,13 +243,13 @@ def rule_decode(rep: Report, repo: Repo) -> None:
     cv = inline_pure_temps(repo.func(BRK, 'calculate_variable_value'))     # call-free single-assignment temporaries are substituted
     site = f'{BRK}:{cv.lineno}'
     # the width table: {'b': 1, 'h': 4, 'B': 8}[variable_type] -> the symbol bpw
-    tables = [n for n in ast.walk(cv) if isinstance(n, ast.Subscript) and isinstance(n.value, ast.Dict) and norm(n.slice) == 'variable_type']
+    tables = [n for n in ast.walk(cv) if isinstance(n, ast.Subscript) and isinstance(n.value, ast.Dict) and norm(n.slice) in ('variable_type', 'variable_prefix[0]')]
     tab_ok = bool(tables) and all({norm(k): norm(v) for k, v in zip(t.value.keys, t.value.values)} == {"'b'": '1', "'h'": '4', "'B'": '8'}   # type: ignore[attr-defined]
                                   for t in tables)
 
     class Bpw(ast.NodeTransformer):
         def visit_Subscript(self, node: ast.Subscript) -> ast.AST:
-            if isinstance(node.value, ast.Dict) and norm(node.slice) == 'variable_type':
+            if isinstance(node.value, ast.Dict) and norm(node.slice) in ('variable_type', 'variable_prefix[0]'):
                 return ast.Name(id='bpw', ctx=ast.Load())
             return self.generic_visit(node)
     cv2 = ast.fix_missing_locations(Bpw().visit(clone(cv)))
@@ -258,21 +258,29 @@ def rule_decode(rep: Report, repo: Repo) -> None:
              and dotted(c.elt.func) == 'mem.get_word' and isinstance(c.generators[0].target, ast.Name)
              and norm(c.elt.args[0]) == c.generators[0].target.id and not c.generators[0].ifs]
     wrong: List[str] = []
-    if len(comps) == 1 and isinstance(comps[0].generators[0].iter, ast.Call) and dotted(comps[0].generators[0].iter.func) == 'range' \
-            and len(comps[0].generators[0].iter.args) == 3:
-        A, B, C = comps[0].generators[0].iter.args
-        for wv in (8, 16, 32, 64):
-            for addr in (0, 2 * wv, 10 * wv):
-                for ln in (1, 2, 5):
-                    for idx in (0, 1, 3):
-                        env = {'address': addr, 'variable_length': ln, 'index': idx, 'mem.memory_width': wv, 'w': wv}
-                        got = list(range(eval_int_expr(A, env), eval_int_expr(B, env), eval_int_expr(C, env)))
-                        first = addr + 2 * ln * idx * wv
-                        want = [first + 2 * wv * k + wv for k in range(ln)]
-                        if got != want:
-                            wrong.append(f'w={wv} address={addr} len={ln} index={idx}: {got[:3]} vs {want[:3]}')
-    else:
-        wrong.append('the word list is no longer [mem.get_word(a) for a in range(A, B, C)]')
+    # folded through whatever helpers compute the span: the addresses that reach mem.get_word are collected per grid case
+    cv_src = repo.func(BRK, 'calculate_variable_value')
+    cv_params = [a_.arg for a_ in cv_src.args.args]
+    for wv in (8, 16, 32, 64):
+        for addr in (0, 2 * wv, 10 * wv):
+            for ln in (1, 2, 5):
+                for idx in (0, 1, 3):
+                    got: List[int] = []
+
+                    def on_call(d: str, vals: List[Any], kws: Dict[str, Any], got: List[int] = got) -> Any:
+                        if d.endswith('.get_word') and len(vals) == 1 and isinstance(vals[0], int):
+                            got.append(vals[0])
+                            return 0
+                        return NotImplemented
+                    given = {'variable_prefix': ('h', ln, idx), 'address': addr, 'mem': {'memory_width': wv}}
+                    try:
+                        _fold_fn(repo, BRK, cv_src, [given.get(p_, _Opaque(p_)) for p_ in cv_params], on_call)
+                    except _CantFold as ex:
+                        raise AnalysisError(f'C15.DECODE: calculate_variable_value could not be folded ({ex})')
+                    first = addr + 2 * ln * idx * wv
+                    want = [first + 2 * wv * k + wv for k in range(ln)]
+                    if got != want:
+                        wrong.append(f'w={wv} address={addr} len={ln} index={idx}: {got[:3]} vs {want[:3]}')
     rep.check(not wrong, 'C15.DECODE', 'addresses', wrong[0] if wrong else 'jump words of the ops [first, last) with stride 2w (108 grid cases)', site)
     # (2) + (3) the fold: for word in <words reversed>: value = value << bpw | (word >> #w) & ((1 << bpw) - 1)
     loops = [n for n in cv2.body if isinstance(n, ast.For) and isinstance(n.target, ast.Name)]
@@ -553,11 +561,283 @@ def rule_read_target(rep: Report, repo: Repo) -> None:
         return False
     cases = {'a huge index of a variable': ((1, BIG), 0), 'a huge length of a variable': ((BIG, 0), 0), 'an f/j offset beyond the memory': (None, BIG),
              'the last word plus a one-cell variable': ((1, 0), (1 << 64) - 64)}
-    uncovered = [nm for nm, (pf, ad) in cases.items() if fold_case(pf, ad) != 'refused']
+    class _Read(Exception):
+        pass
+
+    def fold_whole(prefix: Optional[Tuple[int, int]], address: int) -> str:
+        """the same question answered by folding show_memory_address through its helpers (the span may be computed by one)"""
+        said: List[str] = []
+
+        def on_call(d: str, vals: List[Any], kws: Dict[str, Any]) -> Any:
+            if d.endswith('.get_word'):
+                raise _Read()
+            if d == 'show_message':
+                said.append(d)
+                return None
+            return NotImplemented
+        given = {'mem': {'memory_width': 64}, 'address': address, 'variable_prefix': None if prefix is None else ('h', prefix[0], prefix[1]), 'label_name': None}
+        try:
+            _fold_fn(repo, BRK, sm, [given[a_.arg] if a_.arg in given else _Opaque(a_.arg) for a_ in sm.args.args], on_call)
+        except _Read:
+            return 'through'
+        except _CantFold as ex:
+            if 'domain' in str(ex):
+                return 'through'            # a read loop over a huge range was reached
+            raise AnalysisError(f'C15.READ-TARGET: show_memory_address could not be folded ({ex})')
+        return 'refused' if said else 'through'
+    # the first alignment / size test of show_memory_address refuses an address >= 2^w by itself: the cases keep the address inside
+    uncovered = [nm for nm, (pf, ad) in cases.items() if fold_case(pf, ad) != 'refused' and (nm == 'an f/j offset beyond the memory' or fold_whole(pf, ad) != 'refused')]
     quiet = [nm for nm, (pf, ad) in {'an ordinary variable': ((4, 2), 1024), 'an ordinary word': (None, 1024)}.items() if fold_case(pf, ad) == 'refused']
     rep.check(not uncovered and not quiet, 'C15.READ-TARGET', 'read range', f'{len(refusals)} report-and-return tests between the f/j adjustment and the reads; '
               f'not refused: {uncovered}; wrongly refused: {quiet}', f'{BRK}:{sm.lineno} show_memory_address',
               expected='a read that ends beyond 2^w is reported and skipped; ordinary reads go through')
+
+
+class _Opaque:
+    """a value the folding does not look into (the memory object, a message)"""
+    def __init__(self, what: str):
+        self.what = what
+
+
+class _Stop(Exception):
+    def __init__(self, value: Any):
+        self.value = value
+
+
+class _CantFold(Exception):
+    pass
+
+
+def _too_long(it: Any) -> bool:
+    try:
+        return len(it) > 4096
+    except OverflowError:
+        return True
+
+
+def _fold_fn(repo: Repo, rel: str, fn: ast.FunctionDef, args: List[Any], on_call: Any, depth: int = 0) -> Any:
+    """Fold a small straight-line / branching function on concrete arguments, reading only its syntax tree: names, tuples, integer
+    arithmetic, comparisons, subscripts, if / return, tuple unpacking, calls of module-level functions of the same file (folded the
+    same way), range / len / list comprehensions over a range. `on_call(dotted name, argument values)` sees every other call and may
+    answer it (anything but NotImplemented) - this is how the reads of the memory are collected. Unfoldable -> _CantFold."""
+    if depth > 6:
+        raise _CantFold('call depth')
+    env: Dict[str, Any] = {}
+    names = [a.arg for a in fn.args.args]
+    for n_, v_ in zip(names, args):
+        env[n_] = v_
+    mod_fns = {d.name: d for d in repo.mod(rel).body if isinstance(d, ast.FunctionDef)}
+
+    def ev(e: ast.expr, loc: Dict[str, Any]) -> Any:
+        if isinstance(e, ast.Constant):
+            return e.value
+        if isinstance(e, ast.Name):
+            if e.id in loc:
+                return loc[e.id]
+            raise _CantFold(f'name {e.id}')
+        if isinstance(e, ast.Attribute):
+            k = norm(e)
+            if k in loc:
+                return loc[k]
+            base = ev(e.value, loc)
+            if isinstance(base, dict) and e.attr in base:
+                return base[e.attr]
+            raise _CantFold(f'attribute {k}')
+        if isinstance(e, ast.Tuple) or isinstance(e, ast.List):
+            vals = [ev(x, loc) for x in e.elts]
+            return tuple(vals) if isinstance(e, ast.Tuple) else vals
+        if isinstance(e, ast.BinOp):
+            a, b = ev(e.left, loc), ev(e.right, loc)
+            if not (isinstance(a, int) and isinstance(b, int)):
+                raise _CantFold('non-integer arithmetic')
+            ops = {ast.Add: lambda: a + b, ast.Sub: lambda: a - b, ast.Mult: lambda: a * b, ast.FloorDiv: lambda: a // b, ast.Mod: lambda: a % b,
+                   ast.LShift: lambda: a << b if 0 <= b < 4096 else (_ for _ in ()).throw(_CantFold('shift')), ast.RShift: lambda: a >> b,
+                   ast.BitAnd: lambda: a & b, ast.BitOr: lambda: a | b, ast.BitXor: lambda: a ^ b}
+            if type(e.op) not in ops:
+                raise _CantFold('operator')
+            try:
+                return ops[type(e.op)]()
+            except (ArithmeticError, ValueError) as ex:
+                raise _CantFold(str(ex))
+        if isinstance(e, ast.UnaryOp):
+            v = ev(e.operand, loc)
+            if isinstance(e.op, ast.Not):
+                return not v
+            if isinstance(e.op, ast.USub) and isinstance(v, int):
+                return -v
+            raise _CantFold('unary')
+        if isinstance(e, ast.BoolOp):
+            r: Any = isinstance(e.op, ast.And)
+            for x in e.values:
+                r = ev(x, loc)
+                if bool(r) != isinstance(e.op, ast.And):
+                    return r
+            return r
+        if isinstance(e, ast.Compare):
+            left = ev(e.left, loc)
+            for op, c in zip(e.ops, e.comparators):
+                right = ev(c, loc)
+                if isinstance(op, (ast.Is, ast.IsNot)):
+                    ok = (left is right) == isinstance(op, ast.Is)
+                elif isinstance(left, _Opaque) or isinstance(right, _Opaque):
+                    raise _CantFold('opaque comparison')
+                else:
+                    try:
+                        ok = {ast.Eq: lambda: left == right, ast.NotEq: lambda: left != right, ast.Lt: lambda: left < right, ast.LtE: lambda: left <= right,
+                              ast.Gt: lambda: left > right, ast.GtE: lambda: left >= right, ast.In: lambda: left in right, ast.NotIn: lambda: left not in right}[type(op)]()
+                    except (TypeError, KeyError):
+                        raise _CantFold('comparison')
+                if not ok:
+                    return False
+                left = right
+            return True
+        if isinstance(e, ast.IfExp):
+            return ev(e.body if ev(e.test, loc) else e.orelse, loc)
+        if isinstance(e, ast.Subscript):
+            base = ev(e.value, loc)
+            if isinstance(e.slice, ast.Slice):
+                i = slice(*(None if x is None else ev(x, loc) for x in (e.slice.lower, e.slice.upper, e.slice.step)))
+            else:
+                i = ev(e.slice, loc)
+            try:
+                return base[i]
+            except (TypeError, KeyError, IndexError):
+                raise _CantFold('subscript')
+        if isinstance(e, ast.Dict):
+            return {ev(k, loc): ev(v, loc) for k, v in zip(e.keys, e.values) if k is not None}
+        if isinstance(e, ast.ListComp) and len(e.generators) == 1 and not e.generators[0].ifs and isinstance(e.generators[0].target, ast.Name):
+            it = ev(e.generators[0].iter, loc)
+            if not isinstance(it, (range, list, tuple)) or _too_long(it):
+                raise _CantFold('comprehension domain')
+            return [ev(e.elt, {**loc, e.generators[0].target.id: x}) for x in it]
+        if isinstance(e, ast.JoinedStr):
+            return _Opaque('text')
+        if isinstance(e, ast.Call):
+            d = dotted(e.func)
+            vals = [ev(a, loc) for a in e.args]
+            kws = {k.arg: ev(k.value, loc) for k in e.keywords if k.arg}
+            if isinstance(e.func, ast.Attribute) and e.func.attr == 'bit_length' and not vals:
+                recv = ev(e.func.value, loc)
+                if isinstance(recv, int):
+                    return recv.bit_length()
+            if d == 'range' and all(isinstance(v, int) for v in vals) and not kws:
+                return range(*vals)
+            if d == 'len' and len(vals) == 1 and isinstance(vals[0], (list, tuple, range)):
+                if _too_long(vals[0]):
+                    raise _CantFold('length of a huge domain')
+                return len(vals[0])
+            if d in ('int', 'bool') and len(vals) == 1 and isinstance(vals[0], (int, bool)):
+                return int(vals[0]) if d == 'int' else bool(vals[0])
+            got = on_call(d, vals, kws)
+            if got is not NotImplemented:
+                return got
+            if d in mod_fns and not kws:
+                return _fold_fn(repo, rel, mod_fns[d], vals, on_call, depth + 1)
+            return _Opaque(d)
+        raise _CantFold(type(e).__name__)
+
+    def bind(t: ast.expr, v: Any) -> None:
+        if isinstance(t, ast.Name):
+            env[t.id] = v
+        elif isinstance(t, (ast.Tuple, ast.List)):
+            if isinstance(v, _Opaque):
+                for x in t.elts:
+                    bind(x, _Opaque(v.what))
+                return
+            if not isinstance(v, (tuple, list)) or len(v) != len(t.elts):
+                raise _CantFold('unpacking')
+            for x, y in zip(t.elts, v):
+                bind(x, y)
+        else:
+            raise _CantFold('assignment target')
+
+    def run(stmts: List[ast.stmt]) -> None:
+        for st in stmts:
+            if isinstance(st, ast.Assign):
+                v = ev(st.value, env)
+                for t in st.targets:
+                    bind(t, v)
+            elif isinstance(st, ast.AnnAssign):
+                if st.value is not None:
+                    bind(st.target, ev(st.value, env))
+            elif isinstance(st, ast.AugAssign) and isinstance(st.target, ast.Name):
+                bind(st.target, ev(ast.BinOp(left=ast.Name(id=st.target.id, ctx=ast.Load()), op=st.op, right=st.value), env))
+            elif isinstance(st, ast.If):
+                run(st.body if ev(st.test, env) else st.orelse)
+            elif isinstance(st, ast.Return):
+                raise _Stop(None if st.value is None else ev(st.value, env))
+            elif isinstance(st, ast.Expr):
+                if not isinstance(st.value, ast.Constant):
+                    ev(st.value, env)
+            elif isinstance(st, ast.Try):
+                run(st.body)
+            elif isinstance(st, ast.For) and not st.orelse:
+                try:
+                    it = ev(st.iter, env)
+                    if not isinstance(it, (range, list, tuple)) or _too_long(it):
+                        raise _CantFold('loop domain')
+                    for x in it:
+                        bind(st.target, x)
+                        run(st.body)
+                except _CantFold:
+                    # a loop that only computes a value the rule does not look at: what it assigns is unknown from here on
+                    if any(isinstance(c, ast.Call) for b in st.body for c in ast.walk(b) if isinstance(c, ast.Call) and dotted(c.func).endswith('.get_word')):
+                        raise
+                    for n in ast.walk(st):
+                        if isinstance(n, ast.Name) and isinstance(n.ctx, ast.Store):
+                            env[n.id] = _Opaque(n.id)
+            elif isinstance(st, ast.Pass):
+                continue
+            else:
+                raise _CantFold(type(st).__name__)
+    try:
+        run(fn.body)
+    except _Stop as s_:
+        return s_.value
+    return None
+
+
+def rule_read_span(rep: Report, repo: Repo) -> None:
+    """`read :<type><length>:<index>:<target>` shows the index'th cell: the words fetched are exactly those of
+    [target + 2w*length*index, + 2w*length) - the data words at +w of every op - whichever helper applies the index."""
+    rep.rule('C15.READ-SPAN', 'the words a variable read fetches are the data words of the ADDRESSED cell: show_memory_address is folded on '
+             'concrete (width, type, length, index, address) cases through the helpers it calls, the addresses that reach mem.get_word are '
+             'collected and compared with address + 2w*length*index + w + 2w*k for k < length; a plain word read fetches the address itself', 1)
+    sm = repo.func(BRK, 'show_memory_address')
+    pnames = [a.arg for a in sm.args.args]
+    bad: List[str] = []
+    n_cases = 0
+    for w in (16, 64):
+        for prefix in (None, ('h', 1, 0), ('h', 2, 0), ('h', 2, 1), ('b', 3, 2), ('h', 4, 5), ('b', 1, 7)):
+            for address in (0, 64 * 10, 64 * 37):
+                got: List[int] = []
+
+                def on_call(d: str, vals: List[Any], kws: Dict[str, Any]) -> Any:
+                    if d.endswith('.get_word') and len(vals) == 1:
+                        if not isinstance(vals[0], int):
+                            raise _CantFold('address of a read')
+                        got.append(vals[0])
+                        return 0
+                    return NotImplemented
+                mem = {'memory_width': w}
+                argv: List[Any] = []
+                for pn in pnames:
+                    argv.append({'mem': mem, 'address': address, 'variable_prefix': prefix}.get(pn, _Opaque(pn)) if pn in ('mem', 'address', 'variable_prefix')
+                                else (None if pn == 'label_name' else _Opaque(pn)))
+                try:
+                    _fold_fn(repo, BRK, sm, argv, on_call)
+                except _CantFold as ex:
+                    raise AnalysisError(f'C15.READ-SPAN: show_memory_address could not be folded for w={w} prefix={prefix} address={address}: {ex}')
+                n_cases += 1
+                if prefix is None:
+                    want = [address]
+                else:
+                    first = address + 2 * w * prefix[1] * prefix[2]
+                    want = [first + w + 2 * w * k for k in range(prefix[1])]
+                if got != want and len(bad) < 3:
+                    bad.append(f'w={w} read :{"" if prefix is None else prefix[0] + str(prefix[1]) + ":" + str(prefix[2]) + ":"}{address} fetches {got[:4]}, the addressed cell is {want[:4]}')
+    rep.check(not bad, 'C15.READ-SPAN', 'show_memory_address', '; '.join(bad) if bad else f'{n_cases} folded cases fetch exactly the data words of the addressed cell',
+              f'{BRK}:{sm.lineno} show_memory_address', expected='address + 2w*length*index + w + 2w*k, k < length')
 
 
 def rule_cmd_escape(rep: Report, repo: Repo) -> None:
@@ -700,6 +980,7 @@ def check(rep: Report, repo: Optional[Repo] = None) -> None:
     rule_pause_first(rep, repo)
     rule_commands(rep, repo)
     rule_readonly(rep, repo)
+    rule_read_span(rep, repo)
     rule_decode(rep, repo)
     rule_cmd_escape(rep, repo)
     rule_read_target(rep, repo)
